@@ -35,9 +35,9 @@ func selftestImpl() int {
 		i    uint64
 	}
 	type res struct {
-		h1   []string
-		h4   string
-		h16  string
+		h1  []string
+		h4  string
+		h16 string
 	}
 	var mu sync.Mutex
 	all := map[key]*res{}
@@ -135,16 +135,16 @@ func selftestImpl() int {
 	}
 	sort.Strings(bad)
 	out := map[string]interface{}{
-		"seeds":                       n,
-		"executions_at_gomaxprocs_1":  n * 3,
-		"worker_processes":            nproc,
-		"mismatches_at_gomaxprocs_1":  mism,
-		"mismatch_examples":           bad,
-		"divergent_at_gomaxprocs_4":   div4,
-		"divergent_at_gomaxprocs_16":  div16,
-		"wall_s":                      time.Since(start).Seconds(),
-		"tree":                        gitRev(),
-		"note":                        "pass criterion: every seed gives the same canonical trace hash in three different processes at GOMAXPROCS=1 (different neighbours, one repetition in reversed order); 4/16-P runs are a confluence audit only",
+		"seeds":                      n,
+		"executions_at_gomaxprocs_1": n * 3,
+		"worker_processes":           nproc,
+		"mismatches_at_gomaxprocs_1": mism,
+		"mismatch_examples":          bad,
+		"divergent_at_gomaxprocs_4":  div4,
+		"divergent_at_gomaxprocs_16": div16,
+		"wall_s":                     time.Since(start).Seconds(),
+		"tree":                       gitRev(),
+		"note":                       "pass criterion: every seed gives the same canonical trace hash in three different processes at GOMAXPROCS=1 (different neighbours, one repetition in reversed order); 4/16-P runs are a confluence audit only",
 	}
 	b, _ := json.MarshalIndent(out, "", " ")
 	os.WriteFile(filepath.Join(root, "evidence", "selftest.json"), b, 0o644)
